@@ -755,6 +755,19 @@ def dgen(x: f32[4], y: f32[4]):
         for i in seq(0, 2):
             y[i] += x[i_1]
 """)
+S("dup/arg_shadow", "dup", """
+@proc
+def dargs(n: size, k: index, b: bool, x: f32[n + 4], y: f32[n + 4]):
+    assert k >= 0
+    assert k < 2
+    y[k] = x[k]
+    for k in seq(0, n):
+        x[k] = 2.0 * x[k]
+    for n in seq(0, 2):
+        y[n] += 1.0
+    if b:
+        y[3] = 0.0
+""")
 S("dup/cut", "dup", """
 @proc
 def dcut(n: size, x: f32[n + 3]):
